@@ -27,7 +27,7 @@ from fractions import Fraction
 import numpy as np
 
 PROP = 'C08'
-TARGETS = ['T9a', 'T9b', 'T9c', 'T9d', 'T9e', 'T9f', 'T9g', 'T10a', 'T10b', 'T10c', 'T10d']
+TARGETS = ['T9a', 'T9b', 'T9c', 'T9d', 'T9e', 'T9f', 'T9g', 'T9h', 'T9i', 'T9j', 'T9k', 'T9l', 'T10a', 'T10b', 'T10c', 'T10d']
 LEAN_MODULES = ['HdVerif.Props.C08']
 MODEL_MODULES = ['HdVerif.Model.Volume']
 NAMESPACE = 'HdVerif.C08'
